@@ -22,3 +22,32 @@ func TestCalibration(t *testing.T) {
 		t.Error(p)
 	}
 }
+
+func TestCalibrationThreaded(t *testing.T) {
+	repo := os.Getenv("VERIF_REPO")
+	if repo == "" {
+		repo = "/repo"
+	}
+	prog, names, err := LoadSemantics(repo)
+	if err != nil {
+		t.Fatal(err)
+	}
+	n := 0
+	for _, name := range names {
+		if len(name) < 4 || name[:4] != "test" {
+			continue
+		}
+		runs, complete := Explore(prog, name, 5_000_000, 50, 100000, func(o ThreadedOutcome) bool {
+			if o.Deadlock || o.Aborted || o.Main.Kind != Value || !Equal(o.Main.Val, VBool(true)) || len(o.StuckInfo) > 0 {
+				t.Errorf("%s under schedule %v: deadlock=%v aborted=%v main=%s %v %s stuck=%v", name, o.Trace, o.Deadlock, o.Aborted, o.Main.Kind, showOpt(o.Main.Val), o.Main.Msg, o.StuckInfo)
+				return false
+			}
+			return true
+		})
+		if runs > 1 {
+			t.Logf("%s: %d schedules (complete=%v)", name, runs, complete)
+		}
+		n++
+	}
+	t.Logf("%d tests run threaded", n)
+}
